@@ -484,8 +484,10 @@ def canon_dtype(dt):
 CORE_DICT = ('span', 'index', '_strict', '_attributes', 'submodels', 'name', '_LAGS', '_LEADS', 'aliases', 'preferred_names')
 
 
-def observe(obj):
-    """Canonical observation of a real container / model / linker (same layout as the model driver's jstate)."""
+def observe(obj, declared=None):
+    """Canonical observation of a real container / model / linker (same layout as the model driver's jstate).
+    `declared` = the variables in declaration order as the HARNESS recorded them (constructor names + accepted add_variable
+    calls): `values` is compared row by row against the series of exactly these names."""
     import numpy as np
     d = obj.__dict__
     index = list(d['index'])
@@ -500,8 +502,10 @@ def observe(obj):
     try:
         val = type(obj).values.fget(obj)
         values = list(np.shape(val))
-        rows = list(d['names']) if 'names' in d else index
+        rows = list(declared) if declared is not None else (list(d['names']) if 'names' in d else index)
         # independent reading of "values is the variables-by-periods stack in declaration order"
+        if len(values) == 2 and values[0] != len(rows):
+            rows_ok = False
         if len(values) == 2 and values[0] == len(rows):
             rows_ok = True
             for i, nm in enumerate(rows):
@@ -614,18 +618,60 @@ def construct(case):
         return None, type(e).__name__
 
 
+def _same_cells(a, b):
+    """Element-wise equality of two equally shaped arrays, NaN equal to NaN."""
+    import numpy as np
+    if a.shape != b.shape:
+        return False
+    for x, y in zip(a.ravel().tolist(), b.ravel().tolist()):
+        if x != y and not (isinstance(x, float) and isinstance(y, float) and x != x and y != y):
+            return False
+    return True
+
+
+def values_set_readback(obj, declared, operand):
+    """After an ACCEPTED `obj.values = operand`: is what was assigned what is now stored?  (NumPy's own astype is the reference
+    for the per-row cast; a scalar must fill every series with one and the same cell.)"""
+    import warnings
+    import numpy as np
+    d = obj.__dict__
+    with warnings.catch_warnings():
+        warnings.simplefilter('ignore')
+        try:
+            if isinstance(operand, np.ndarray):
+                if operand.ndim != 2 or operand.shape[0] != len(declared):
+                    return None
+                for i, nm in enumerate(declared):
+                    ser = d['_' + nm]
+                    if not _same_cells(operand[i].astype(ser.dtype), ser):
+                        return False
+                return True
+            for nm in declared:
+                ser = d['_' + nm]
+                if ser.shape[0] and not _same_cells(ser, np.full(ser.shape, ser[0], dtype=ser.dtype)):
+                    return False
+            return True
+        except Exception:                  # noqa: BLE001 - no verdict
+            return None
+
+
 def impl_run(case):
     """Run a whole case on the real fsic: observation after construction and after every op."""
     obj, out = construct(case)
     if obj is None:
         return {'init': out, 'steps': []}
-    res = {'init': 'ok', 'st0': observe(obj), 'steps': []}
+    declared = [] if case['kind'] == 'vc' else list(case['names'])
+    res = {'init': 'ok', 'st0': observe(obj, declared), 'steps': []}
     for op in case['ops']:
         hint = None
         if op[0] == 'setattr':
             hint = closest_hint(obj, obj.__dict__.get('aliases', {}).get(op[1], op[1]))
         o, info = apply_op(obj, op)
-        step = {'out': o, 'st': observe(obj), 'hint': hint}
+        if op[0] == 'addvar' and o == 'ok':
+            declared.append(op[1])
+        step = {'out': o, 'st': observe(obj, declared), 'hint': hint}
+        if op[0] == 'setattr' and op[1] == 'values' and o == 'ok':
+            step['values_set_ok'] = values_set_readback(obj, declared, py_of_operand(op[2]))
         if 'msg' in info:
             step['msg'] = info['msg']
         res['steps'].append(step)
